@@ -412,6 +412,7 @@ func (x *Exec) run() {
 	x.alloc0 = x.decls.Const("alloc0", "Int")
 	x.decls.Axiom("alloc0", "(< 0 alloc0)")
 	st.alloc = x.alloc0
+	st.epochAlloc = x.alloc0
 	st.defers = [][]Deferred{nil}
 	fr := &Frame{fn: fn, con: con, names: map[string]Val{}, nopanic: con.NoPanic}
 	for _, p := range fn.Params {
@@ -696,6 +697,7 @@ func (eng *Engine) verifyLemma(con *Contract, bound int) *FuncResult {
 		visited: map[ssa.Value]string{}, dbg: map[string]Val{}, dbgAddr: map[string]Val{}, applied: map[string]bool{}, qfSeen: map[string]bool{}}
 	x.alloc0 = x.decls.Const("alloc0", "Int")
 	st.alloc = x.alloc0
+	st.epochAlloc = x.alloc0
 	fr := &Frame{con: con, names: map[string]Val{}}
 	for _, p := range con.Params {
 		t := eng.resolveType(con.Pkg, p.Type)
@@ -842,6 +844,10 @@ func dischargeAll(results []*FuncResult, timeoutMs int, workers int) {
 				continue
 			}
 			res.x.withQ = false
+			if o.raw != "" {
+				jobs = append(jobs, &job{text: o.raw, obs: []*Oblig{o}, res: res})
+				continue
+			}
 			text := res.decls.render(res.x.buildQuery(o))
 			text2 := ""
 			if o.hasQ {
@@ -867,6 +873,9 @@ func dischargeAll(results []*FuncResult, timeoutMs int, workers int) {
 			// first attempt: quantified assumptions replaced by their instances (quantifier-free); a proof here is a proof
 			cover := j.obs[0].Cover || j.obs[0].Canary
 			tmo := timeoutMs
+			if j.obs[0].timeout > tmo {
+				tmo = j.obs[0].timeout
+			}
 			if cover && tmo > 4000 {
 				tmo = 4000
 			}
